@@ -155,11 +155,14 @@ void rf_wavheader_init(rf_wavheader_t *wh, int sfreq, int num_channels,
 		rf_wavheader_format_t format)
 {
 	memcpy(wh->chunk_id, riff, 4);
-	wh->chunk_size = 12 + 18 + 12 + 8; // chunks: riff, fmt, fact, data
 	memcpy(wh->format, wave, 4);
 
 	memcpy(wh->fmt_chunk_id, fmt, 4);
 	wh->fmt_chunk_size = (format == RF_WAVHEADER_FLOAT ? 18 : 16);
+	// everything that follows the size field: form type, fmt chunk,
+	// fact chunk (only emitted for floating point) and data chunk header
+	wh->chunk_size = 4 + (8 + wh->fmt_chunk_size) +
+			 (format == RF_WAVHEADER_FLOAT ? 12 : 0) + 8;
 	wh->audio_format = (format == RF_WAVHEADER_FLOAT ? 3 : 1);
 	wh->num_channels = num_channels;
 	wh->sample_rate = sfreq;
